@@ -131,7 +131,7 @@ class Pool:
         self.skyc = self.wcs.pixel_to_world(self.pix.x.ravel(), self.pix.y.ravel())
 
         def mv():
-            m = RegionMeta({'label': rnd.choice(['a b', 'x']), 'tag': ['t1', 't2'][:rnd.randint(0, 2)]}) if rnd.random() < 0.7 else RegionMeta()
+            m = RegionMeta({'label': rnd.choice(['a b', 'x']), 'tag': rnd.choice([[], ['t1'], ['t2', 't1'], ['zz', 'group a', 'b1']])}) if rnd.random() < 0.7 else RegionMeta()
             if rnd.random() < 0.4:
                 m['include'] = rnd.choice([True, False, 1, 0])
             v = RegionVisual({'color': rnd.choice(['red', 'blue']), 'linewidth': 2}) if rnd.random() < 0.7 else RegionVisual()
@@ -182,13 +182,16 @@ class Pool:
             members = [m for m in members if isinstance(m, R.PixelRegion)] or [pixmakers[0]()]
         rnd.shuffle(members)
         self.objs['lst'] = R.Regions(members)
+        # argument objects the caller keeps and passes again: they are inputs too
+        self.rot_angle = rnd.choice([20, 33.5]) * u.deg
+        self.rot_center = PixCoord(3.0, 4.0)
         self.other_pix = pixmakers[0]()
         self.other_sky = skymakers[0]()
         self.tmp = None
 
     def fingerprint(self):
         return (tuple((k, fp(v)) for k, v in sorted(self.objs.items())), fp(self.parts), fp(self.other_pix), fp(self.other_sky),
-                fp(self.image), fp(self.pix), fp(self.skyc), h(self.wcs.to_header_string()))
+                fp(self.image), fp(self.pix), fp(self.skyc), h(self.wcs.to_header_string()), fp(self.rot_angle), fp(self.rot_center))
 
     # ---- operations -------------------------------------------------------------------------------
     def mutate(self, o):
@@ -250,7 +253,7 @@ class Pool:
         if op == 'convert':
             return each(lambda r: r.to_sky(self.wcs) if ispix(r) else r.to_pixel(self.wcs))
         if op == 'rotate':
-            return each(lambda r: (r if ispix(r) else r.to_pixel(self.wcs)).rotate(PixCoord(3, 4), (20 + k) * u.deg))
+            return each(lambda r: (r if ispix(r) else r.to_pixel(self.wcs)).rotate(self.rot_center, self.rot_angle))
         if op == 'copy':
             return obj.copy() if is_list else each(lambda r: r.copy())
         if op == 'combine':
@@ -306,7 +309,7 @@ class Pool:
                 if fmt == 'ds9':
                     return obj.serialize(format='ds9', precision=[8, 3, 5][k % 3])
                 if fmt == 'crtf':
-                    return obj.serialize(format='crtf')
+                    return obj.serialize(format='crtf', radunit=['deg', 'arcsec', 'arcmin'][k % 3], fmt=['.6f', '.6f', '.3f', '.8f'][k % 4])
                 return obj.serialize(format='fits')
         except (ValueError, TypeError, KeyError, AttributeError) as ex:
             return ex
